@@ -437,6 +437,11 @@ def graph_family(rep, n_cases, n_ops, which, known_classes=(), nproc=16):
 
 
 FIXED_GRAPH_STORIES = [
+    # passages registered with @hook that the player also walks into; they have choices and jumps of their own
+    (":: Start\n~ hour = 0\n@hook turn_end Clock\n@hook turn_end Poison\nhi\n+ [clock] -> Clock\n+ [poison] -> Poison\n+ [wait] -> Start2\n\n"
+     ":: Start2\nagain\n+ [clock] -> Clock\n+ [poison] -> Poison\n\n"
+     ":: Clock\n~ hour = hour + 1\nIt is {hour}.\n+ [hall] -> Hall\n@if hour > 0:\n  + [garden] -> Garden\n@endif\n\n"
+     ":: Poison\n@if hour > 2:\n  -> Death\n@endif\nsick\n+ [rest] -> Start2\n\n:: Hall\nhall\n+ [back] -> Start2\n\n:: Garden\ngarden\n+ [back] -> Start2\n\n:: Death\ndead\n"),
     # undefined targets referenced from a passage nobody links to (an unfinished draft), inside blocks
     (":: Start\nhi\n+ [go] -> Hall\n\n:: Hall\nhall\n@if True:\n  + [up] -> Attic\n@endif\n+ [back] -> Start\n\n"
      ":: Draft\nnot linked yet\n@if True:\n  + [down] -> Crypt\n  @for i in [1]:\n    -> Cellar\n  @endfor\n@endif\n"),
